@@ -397,7 +397,7 @@ def NTPL():
 
 
 def BOM(enc):
-    return enc >= BOM_FROM
+    return False  # repaired in /repo (fix: TemplateStream.dump encodes the stream as one text); nothing excluded
 
 
 def _tmp():
